@@ -3,8 +3,9 @@
 //
 //	clock <ms>
 //	tick <ms>
-//	load <n> <rule>*n      rule = res=..,cb=..,idx=..,key=..,T=..,burst=..,D=..,mq=..,cap=..,items=<-|val@int;…>
+//	load <n> <rule>*n      hotspot.LoadRules on the module as it is (the first load of a case finds it empty); rule = res=..,cb=..,idx=..,key=..,T=..,burst=..,D=..,mq=..,cap=..,items=<-|val@int;…>
 //	entry <res> <batch> <nargs> <val>* <natt> <key=val>*
+//	sweep <res> <batch> <prefix> <lo> <hi>   one entry per k in [lo,hi) with the single argument <prefix>k; run-length encoded results
 //
 // A value is `v:<kind>:<text>`: i int, l int64, s string, b bool, f float64 bits, t struct{A int;B string}, n nil.
 package c05
@@ -53,8 +54,9 @@ func (c *spinClock) CurrentTimeMillis() uint64 {
 }
 
 type Interp struct {
-	clk   *spinClock
-	rules []*hotspot.Rule
+	clk    *spinClock
+	labels map[*hotspot.Rule]int // every rule object loaded in this case -> generation*1000 + position
+	gen    int
 }
 
 func New() vh.Interp {
@@ -69,7 +71,8 @@ func New() vh.Interp {
 func (it *Interp) Reset() {
 	_ = hotspot.ClearRules()
 	stat.ResetResourceNodeMap()
-	it.rules = nil
+	it.labels = map[*hotspot.Rule]int{}
+	it.gen = 0
 	it.clk.Sleeps = nil
 }
 
@@ -157,6 +160,49 @@ func rule(s string) *hotspot.Rule {
 	return r
 }
 
+// entry performs one api.Entry and renders the decision, the triggering rule and the requested sleeps.
+func (it *Interp) entry(res string, batch uint32, args []interface{}, atts map[interface{}]interface{}) string {
+	opts := []sentinel.EntryOption{sentinel.WithBatchCount(batch)}
+	if len(args) > 0 {
+		opts = append(opts, sentinel.WithArgs(args...))
+	}
+	if len(atts) > 0 {
+		opts = append(opts, sentinel.WithAttachments(atts))
+	}
+	it.clk.Sleeps = it.clk.Sleeps[:0]
+	it.clk.reads, it.clk.spun = 0, false
+	e, b := sentinel.Entry(res, opts...)
+	out := "pass"
+	if it.clk.spun {
+		out = "spin"
+		if e != nil {
+			e.Exit()
+		}
+	} else if b != nil {
+		if b.BlockType() != base.BlockTypeHotSpotParamFlow {
+			out = "block-other " + b.BlockType().String()
+		} else {
+			g := -1
+			if r, ok := b.TriggeredRule().(*hotspot.Rule); ok {
+				if l, ok := it.labels[r]; ok {
+					g = l
+				}
+			}
+			out = fmt.Sprintf("block %d", g)
+		}
+	} else {
+		e.Exit()
+	}
+	if len(it.clk.Sleeps) > 0 {
+		xs := make([]string, len(it.clk.Sleeps))
+		for i, d := range it.clk.Sleeps {
+			xs[i] = strconv.FormatInt(int64(d), 10)
+		}
+		out += " w:" + strings.Join(xs, ",")
+	}
+	return out
+}
+
 func (it *Interp) Step(t []string, op string) string {
 	switch t[0] {
 	case "clock":
@@ -170,12 +216,16 @@ func (it *Interp) Step(t []string, op string) string {
 		if len(t) != 2+n {
 			panic("bad load")
 		}
-		_ = hotspot.ClearRules()
-		it.rules = nil
-		for _, s := range t[2:] {
-			it.rules = append(it.rules, rule(s))
+		// a plain (re)load: controllers and statistics of the previous generation are reused as the rule manager
+		// decides; a reused controller keeps its old rule object, hence the labels by generation
+		var rules []*hotspot.Rule
+		for i, s := range t[2:] {
+			r := rule(s)
+			it.labels[r] = it.gen*1000 + i
+			rules = append(rules, r)
 		}
-		if _, err := hotspot.LoadRules(it.rules); err != nil {
+		it.gen++
+		if _, err := hotspot.LoadRules(rules); err != nil {
 			return "err"
 		}
 		return fmt.Sprint(len(hotspot.GetRules()))
@@ -192,50 +242,36 @@ func (it *Interp) Step(t []string, op string) string {
 		if len(rest) != nt {
 			panic("bad entry")
 		}
-		opts := []sentinel.EntryOption{sentinel.WithBatchCount(batch)}
-		if na > 0 {
-			opts = append(opts, sentinel.WithArgs(args...))
-		}
+		var atts map[interface{}]interface{}
 		if nt > 0 {
-			m := make(map[interface{}]interface{}, nt)
+			atts = make(map[interface{}]interface{}, nt)
 			for _, kv := range rest {
 				i := strings.Index(kv, "=")
-				m[kv[:i]] = val(kv[i+1:])
+				atts[kv[:i]] = val(kv[i+1:])
 			}
-			opts = append(opts, sentinel.WithAttachments(m))
 		}
-		it.clk.Sleeps = it.clk.Sleeps[:0]
-		it.clk.reads, it.clk.spun = 0, false
-		e, b := sentinel.Entry(res, opts...)
-		out := "pass"
-		if it.clk.spun {
-			out = "spin"
-			if e != nil {
-				e.Exit()
+		return it.entry(res, batch, args, atts)
+	case "sweep":
+		res := t[1]
+		batch := uint32(vh.U(t[2]))
+		lo, hi := vh.U(t[4]), vh.U(t[5])
+		var groups []string
+		last, n := "", 0
+		for k := lo; k < hi; k++ {
+			r := it.entry(res, batch, []interface{}{val(t[3] + strconv.FormatUint(k, 10))}, nil)
+			if r == last {
+				n++
+				continue
 			}
-		} else if b != nil {
-			if b.BlockType() != base.BlockTypeHotSpotParamFlow {
-				out = "block-other " + b.BlockType().String()
-			} else {
-				g := -1
-				for i, r := range it.rules {
-					if base.SentinelRule(r) == b.TriggeredRule() {
-						g = i
-					}
-				}
-				out = fmt.Sprintf("block %d", g)
+			if n > 0 {
+				groups = append(groups, fmt.Sprintf("%dx%s", n, strings.ReplaceAll(last, " ", "_")))
 			}
-		} else {
-			e.Exit()
+			last, n = r, 1
 		}
-		if len(it.clk.Sleeps) > 0 {
-			xs := make([]string, len(it.clk.Sleeps))
-			for i, d := range it.clk.Sleeps {
-				xs[i] = strconv.FormatInt(int64(d), 10)
-			}
-			out += " w:" + strings.Join(xs, ",")
+		if n > 0 {
+			groups = append(groups, fmt.Sprintf("%dx%s", n, strings.ReplaceAll(last, " ", "_")))
 		}
-		return out
+		return strings.Join(groups, ";")
 	}
 	panic("bad op " + op)
 }
